@@ -699,7 +699,20 @@ def mpi_rules(ctx):
                             return _leaves(t_.args[1]) + _leaves(t_.args[2])
                         return [t_]
                     lv_ = [x_ for x_ in _leaves(sb) if not is_const(x_, None)]
-                    bare = [x_ for x_ in lv_ if x_.op == "call" and array_fn(x_) in ("zeros", "empty", "zeros_like", "empty_like")]
+                    # a buffer handed to some other call (np.copyto(buf, ..), np.take(.., out=buf), a helper) may have been
+                    # filled there: only the collectives themselves are known not to comb
+                    handed = set()
+                    for e2 in ev.events:
+                        if e2.kind == "call" and not (e2.data.args[0].op == "attr" and e2.data.args[0].args[1] in COLLECTIVES):
+                            _, p2, k2 = call_parts(e2.data)
+                            for a2 in list(p2) + list(k2.values()):
+                                a2 = strip_wrappers(a2)
+                                handed.add(a2.uid)
+                                while a2.op == "getitem":            # a view buf[i:j] handed on is the buffer handed on
+                                    a2 = strip_wrappers(a2.args[0])
+                                    handed.add(a2.uid)
+                    bare = [x_ for x_ in lv_ if x_.op == "call" and array_fn(x_) in ("zeros", "empty", "zeros_like", "empty_like")
+                            and x_.uid not in handed]
                     if lv_:
                         ctx.ob("MPI-2", f"{q}: Scatter #{k} sends a buffer the comb has written", len(bare) < len(lv_),
                                f"root send buffer {show(lv_[0], maxdepth=2)[:60]}" + (
